@@ -75,6 +75,9 @@ class Z3Enc:
             self.side.append(v * v == self.poly(C.factors[C.radf[s]]))
         elif kind == "exp":
             self.side.append(v > 0)
+        elif kind == "def":
+            self.side.append(v > 0)
+            self.side.append(v == self.poly(C.defs[s]))
         elif kind == "gsq":
             arg = [a for t, a in C.gsq if t == s][0]
             n, d = self.value(arg)
